@@ -728,6 +728,21 @@ def run_options(ctx):
             if res != ("out", civil.strftime(fmt)):
                 ctx.violation("print_format_fallback", {"fmt": fmt}, {"kind": "options", "argv": [text, "-f", fmt, "-s", "PT1H"]},
                               civil.strftime(fmt), list(res))
+    # the two strptime notations the command accepts besides ISO 8601 (ctime, Unix date): shifted by exact offsets and
+    # printed back in the notation they were written in; the civil arithmetic is judged by the datetime library
+    for text, fmt in (("Thu Jan 01 00:00:00 1970", "%a %b %d %H:%M:%S %Y"), ("Mon Feb 29 23:59:59 2016", "%a %b %d %H:%M:%S %Y"),
+                      ("Thu 01 Jan 00:00:00 UTC 1970", "%a %d %b %H:%M:%S %Z %Y"), ("Thu 31 Dec 23:30:00 UTC 2015", "%a %d %b %H:%M:%S %Z %Y")):
+        base = _dt.datetime.strptime(text.replace(" UTC", ""), fmt.replace(" %Z", ""))
+        for offs, delta in (([], 0), (["P1D"], 86400), (["PT36H"], 129600), (["-P1W"], -604800), (["PT1H", "PT30M"], 5400)):
+            for utc in (False, True):
+                argv = [text] + [x for o in offs for x in ("-s", o)] + (["--utc"] if utc else [])
+                ctx.transitions += 1
+                ctx.state_count += 1
+                res = run_main(argv)
+                want = (base + _dt.timedelta(seconds=delta)).strftime(fmt.replace("%Z", "UTC"))
+                if res != ("out", want):
+                    ctx.violation("strptime_notation_kept", {"unix_date": "%Z" in fmt, "utc": utc},
+                                  {"kind": "options", "argv": argv}, want, list(res))
     # --version prints the package version and nothing else
     import metomi.isodatetime as _pkg
     ctx.transitions += 1
